@@ -43,7 +43,7 @@ def phase_cases():
                 if other:
                     sched += [1] * 8          # the other worker (tid 1): start + its 7 park steps, then it is blocked
                 sched += [0] * k              # worker 0 (lowest runnable tid) advances k steps: start, fetch_or, total_add, running, load0, load1, futex.wait
-                sched += [1] * 12 + [0] * 40  # the stopper (last runnable tid; index 1 of [0,stopper] or of [stopper] alone) runs stop(i)..., wakeAll
+                sched += [1] * 12 + [0] * 70  # the stopper (last runnable tid; index 1 of [0,stopper] or of [stopper] alone) runs stop(i)..., wakeAll
                 out.append({'n': n, 'gs': gs, 'tmo': 0, 'budget': 70, 'progs': progs, 'sched': sched, 'kind': 'phase'})
     return out
 
@@ -118,10 +118,10 @@ def run(ctx):
             ctx.violation('worker left parked after stop + wakeAll: ' + o[-300:], {'finding_key': wc.KEY_C09, 'case': wc.line_of(c)})
         elif v == 2:
             ctx.violation('a worker is left parked (nothing runnable, timeouts off) although its running flag was cleared and a complete wakeAll followed, '
-                          'no claimAndWakeOne involved: %s -> %s' % (wc.line_of(c)[:200], o[-300:]),
+                          'no claimAndWakeOne involved: %s -> %s' % (wc.line_of(c), o[-400:]),
                           {'case': wc.line_of(c), 'output': o, 'cmd': 'echo "<case>" | build/harness/h_wake-*'})
         elif v == 1:
-            ctx.broken.append('correspondence L(C09): real trace differs from the model on ' + wc.line_of(c)[:200] + ' -> ' + o[:200])
+            ctx.broken.append('correspondence L(C09): real trace differs from the model on ' + wc.line_of(c) + ' -> ' + o)
     ctx.cov['distinct_nontrivial'] += len(distinct)
     ctx.cov['rule'] = ('lockstep cases = deterministic witness + stop injected at every step of a park cycle (enumerated, 7 sizes) + random raw scripts + random '
                        'protocol-conformant scripts (workers: park cycle + poll; producers: stop/wakeAll/claim/seed/range/cascade), n in {1,2,3,8,9,16} and small groups, '
